@@ -1,3 +1,203 @@
 import TlsModel.Proto
-/- driver stub for C10: replaced when the model exists -/
-def main : IO Unit := Tls.protoMain (fun _ => none)
+import TlsModel.Rsa
+import TlsModel.Dh
+import TlsModel.X25519
+import TlsModel.SignGuard
+import TlsModel.Dsa
+/-
+  Driver for C10.  Numbers are big-endian hex (`-` = 0), byte strings hex (`-` = empty).
+  A hash enters as a table `in:out,in:out,...` computed by the harness with hashlib; an input that
+  is not in the table hashes to the empty string (wrong length, so the model rejects / the
+  comparison with the implementation fails loudly).
+
+    numbits N | numbytes N | powmod B E M | invmod A B
+    pad1 N DATA                         -> addPKCS1Padding(DATA, 1)
+    prefix ALG DATA                     -> addPKCS1Prefix           | err:<Exc>
+    sha1prefix 0|1 DATA                 -> addPKCS1SHA1Prefix
+    pubop N E C                         -> _raw_public_key_op_bytes | err:<Exc>
+    privop N E D P Q DP DQ QINV BL UNBL RND M   -> out blinder' unblinder' | err:<Exc>
+    privhelper P Q DP DQ QINV M         -> _rawPrivateKeyOpHelper (decimal, may be negative)
+    verify PSSONLY N E SIG BYTES PAD ALG HLEN SLEN TABLE  -> true|false|err:<Exc>
+         PAD = pkcs1|pss|other, ALG = name or `none`
+    sign N E D P Q DP DQ QINV BL UNBL RND BYTES PAD ALG HLEN SALT TABLE -> sig blinder' unblinder'
+    mgf1 HLEN MASKLEN SEED TABLE
+    pssenc HLEN EMBITS MHASH SALT TABLE
+    pssver HLEN EMBITS SLEN MHASH EM TABLE   -> ok | err:<Exc>
+    ffnew GROUP TLS13 G P               -> ok G P | err:<Exc>      (GROUP 0 = custom parameters)
+    ffpub G P TLS13 PRIV                -> int HEX | bytes HEX | err:<Exc>
+    ffshared G P TLS13 PRIV int|bytes V -> HEX | err:<Exc>
+    x25519 K U | x448 K U               -> HEX | err:<Exc>
+    xshared 25519|448 PRIV PEER         -> HEX | err:<Exc>   (ECDHKeyExchange.calc_shared_key, X groups)
+    dsasign P Q G X Y K DATA            -> R S            (python_dsakey.sign before DER encoding)
+    dsaverify P Q G X Y R S DATA        -> true|false     (python_dsakey.verify after DER decoding)
+    guard ske|skeecdsa|cv|cv13 SIG VERIFY(0|1) [BASELEN BYTES] -> send HEX | abort
+         (the key object is scripted: sign returns SIG, verify returns VERIFY)
+-/
+open Tls Tls.Rsa
+
+def num (s : String) : Option Nat := (ofHex s).map beDecode
+
+/-- minimal big-endian hex of a number -/
+def numOut (n : Nat) : String := if n = 0 then "-" else toHex (beEncode (numBytes n) n)
+
+def parsePair (s : String) : Option (Bytes × Bytes) :=
+  match s.splitOn ":" with
+  | [a, b] => do pure ((← ofHex a), (← ofHex b))
+  | _ => none
+
+def parseTable (s : String) : Option (List (Bytes × Bytes)) :=
+  if s == "-" then some [] else (s.splitOn ",").mapM parsePair
+
+def mkHash (name : String) (hLen : Nat) (t : List (Bytes × Bytes)) : HashAlg :=
+  { name := name, hLen := hLen, hash := fun x => match t.lookup x with | some y => y | none => [] }
+
+def errOut (e : Err) : String := "err:" ++ e.name
+
+def parsePad : String → Option Padding
+  | "pkcs1" => some .pkcs1
+  | "pss" => some .pss
+  | "other" => some .other
+  | _ => none
+
+def parseAlg (s : String) : Option String := if s == "none" then none else some s
+
+def dhErr (e : Tls.Dh.Err) : String := "err:" ++ e.name
+def xErr (e : Tls.X25519.Err) : String := "err:" ++ e.name
+
+def handleDh : List String → Option String
+  | ["ffnew", grp, t13, g, p] => do
+    match Tls.Dh.FFDH.new (← grp.toNat?) (t13 == "1") (← num g) (← num p) with
+    | .ok k => some ("ok " ++ numOut k.generator ++ " " ++ numOut k.prime)
+    | .error e => some (dhErr e)
+  | ["ffpub", g, p, t13, priv] => do
+    let k : Tls.Dh.FFDH := { generator := ← num g, prime := ← num p, tls13 := t13 == "1" }
+    if k.prime = 0 then none else
+    match k.calcPublic (← num priv) with
+    | .ok (.int y) => some ("int " ++ numOut y)
+    | .ok (.bytes b) => some ("bytes " ++ hexOut b)
+    | .error e => some (dhErr e)
+  | ["ffshared", g, p, t13, priv, kind, v] => do
+    let k : Tls.Dh.FFDH := { generator := ← num g, prime := ← num p, tls13 := t13 == "1" }
+    if k.prime = 0 then none else
+    let share ← match kind with
+      | "int" => (num v).map Tls.Dh.Share.int
+      | "bytes" => (ofHex v).map Tls.Dh.Share.bytes
+      | _ => none
+    match k.calcShared (← num priv) share with
+    | .ok b => some (hexOut b)
+    | .error e => some (dhErr e)
+  | ["guard", site, sig, ver] => do
+    let sig ← ofHex sig
+    let sg : Tls.SignGuard.Signer := { sign := fun _ => sig, verify := fun _ _ => ver == "1" }
+    let out ← match site with
+      | "ske" => some (Tls.SignGuard.signServerKeyExchange sg [])
+      | "skeecdsa" => some (Tls.SignGuard.signServerKeyExchangeEcdsa sg [] 32)
+      | "skeeddsa" => some (Tls.SignGuard.signServerKeyExchangeEddsa sg [])
+      | "cv" => some (Tls.SignGuard.makeCertificateVerify sg [])
+      | "cv13" => some (Tls.SignGuard.tls13CertificateVerify sg [])
+      | _ => none
+    match out with
+    | .send s => some ("send " ++ hexOut s)
+    | .abort => some "abort"
+  | ["dsasign", p, q, g, x, y, k, data] => do
+    let key : Tls.Dsa.Key := { p := ← num p, q := ← num q, g := ← num g, x := ← num x, y := ← num y }
+    if key.p = 0 ∨ key.q = 0 then none else
+    let rs := Tls.Dsa.signRS key (← num k) (← ofHex data)
+    some (numOut rs.1 ++ " " ++ numOut rs.2)
+  | ["dsaverify", p, q, g, x, y, r, s, data] => do
+    let key : Tls.Dsa.Key := { p := ← num p, q := ← num q, g := ← num g, x := ← num x, y := ← num y }
+    if key.p = 0 ∨ key.q = 0 then none else
+    some (boolOut (Tls.Dsa.verifyRS key (← num r) (← num s) (← ofHex data)))
+  | ["x25519", k, u] => do
+    match Tls.X25519.x25519 (← ofHex k) (← ofHex u) with
+    | .ok b => some (hexOut b)
+    | .error e => some (xErr e)
+  | ["x448", k, u] => do
+    match Tls.X25519.x448 (← ofHex k) (← ofHex u) with
+    | .ok b => some (hexOut b)
+    | .error e => some (xErr e)
+  | ["xshared", which, priv, peer] => do
+    let priv ← ofHex priv
+    let peer ← ofHex peer
+    let (size, f) ← match which with
+      | "25519" => some (32, Tls.X25519.x25519)
+      | "448" => some (56, Tls.X25519.x448)
+      | _ => none
+    -- the length check comes first; only then is the function evaluated
+    if peer.length ≠ size then some (dhErr .illegalParameter) else
+    match f priv peer with
+    | .error e => some (xErr e)
+    | .ok _ =>
+      match Tls.Dh.xShared size (fun a b => match f a b with | .ok r => r | .error _ => []) priv peer with
+      | .ok b => some (hexOut b)
+      | .error e => some (dhErr e)
+  | _ => none
+
+def handleRsa : List String → Option String
+  | ["numbits", n] => do some (toString (numBits (← num n)))
+  | ["numbytes", n] => do some (toString (numBytes (← num n)))
+  | ["powmod", b, e, m] => do
+    let m ← num m
+    if m = 0 then none else some (numOut (powMod (← num b) (← num e) m))
+  | ["invmod", a, b] => do some (numOut (invMod (← num a) (← num b)))
+  | ["pad1", n, data] => do some (hexOut (addPKCS1Padding (← num n) (← ofHex data)))
+  | ["prefix", alg, data] => do
+    match addPKCS1Prefix (← ofHex data) alg with
+    | .ok b => some (hexOut b)
+    | .error e => some (errOut e)
+  | ["sha1prefix", w, data] => do
+    some (hexOut (addPKCS1SHA1Prefix (← ofHex data) (w == "1")))
+  | ["pubop", n, e, c] => do
+    match rawPublicKeyOpBytes { n := ← num n, e := ← num e } (← ofHex c) with
+    | .ok b => some (hexOut b)
+    | .error e => some (errOut e)
+  | ["privop", n, e, d, p, q, dP, dQ, qInv, bl, unbl, rnd, m] => do
+    let k : PrivKey := { pub := { n := ← num n, e := ← num e }, d := ← num d, p := ← num p, q := ← num q,
+                         dP := ← num dP, dQ := ← num dQ, qInv := ← num qInv }
+    match rawPrivateKeyOpBytes k { blinder := ← num bl, unblinder := ← num unbl } (← num rnd) (← ofHex m) with
+    | .ok (b, st) => some (hexOut b ++ " " ++ numOut st.blinder ++ " " ++ numOut st.unblinder)
+    | .error e => some (errOut e)
+  | ["privhelper", p, q, dP, dQ, qInv, m] => do
+    let k : PrivKey := { pub := { n := 0, e := 0 }, d := 0, p := ← num p, q := ← num q,
+                         dP := ← num dP, dQ := ← num dQ, qInv := ← num qInv }
+    if k.p = 0 ∨ k.q = 0 then some (errOut .arith) else
+    some (toString (rawPrivateKeyOpHelper k (← num m)))
+  | ["verify", pssOnly, n, e, sig, bytes, pad, alg, hLen, sLen, table] => do
+    let k : PubKey := { n := ← num n, e := ← num e, pssOnly := pssOnly == "1" }
+    let alg := parseAlg alg
+    let H := mkHash (alg.getD "") (← hLen.toNat?) (← parseTable table)
+    match verify k (← ofHex sig) (← ofHex bytes) (← parsePad pad) alg H (← sLen.toNat?) with
+    | .ok b => some (boolOut b)
+    | .error e => some (errOut e)
+  | ["sign", n, e, d, p, q, dP, dQ, qInv, bl, unbl, rnd, bytes, pad, alg, hLen, salt, table] => do
+    let k : PrivKey := { pub := { n := ← num n, e := ← num e }, d := ← num d, p := ← num p, q := ← num q,
+                         dP := ← num dP, dQ := ← num dQ, qInv := ← num qInv }
+    let alg := parseAlg alg
+    let H := mkHash (alg.getD "") (← hLen.toNat?) (← parseTable table)
+    match sign k { blinder := ← num bl, unblinder := ← num unbl } (← num rnd) (← ofHex bytes)
+        (← parsePad pad) alg H (← ofHex salt) with
+    | .ok (b, st) => some (hexOut b ++ " " ++ numOut st.blinder ++ " " ++ numOut st.unblinder)
+    | .error e => some (errOut e)
+  | ["mgf1", hLen, maskLen, seed, table] => do
+    let H := mkHash "" (← hLen.toNat?) (← parseTable table)
+    match mgf1 H (← ofHex seed) (← maskLen.toNat?) with
+    | .ok b => some (hexOut b)
+    | .error e => some (errOut e)
+  | ["pssenc", hLen, emBits, mHash, salt, table] => do
+    let H := mkHash "" (← hLen.toNat?) (← parseTable table)
+    match emsaPssEncode H (← ofHex mHash) (← emBits.toNat?) (← ofHex salt) with
+    | .ok b => some (hexOut b)
+    | .error e => some (errOut e)
+  | ["pssver", hLen, emBits, sLen, mHash, em, table] => do
+    let H := mkHash "" (← hLen.toNat?) (← parseTable table)
+    match emsaPssVerify H (← ofHex mHash) (← ofHex em) (← emBits.toNat?) (← sLen.toNat?) with
+    | .ok () => some "ok"
+    | .error e => some (errOut e)
+  | _ => none
+
+def handle (toks : List String) : Option String :=
+  match handleRsa toks with
+  | some r => some r
+  | none => handleDh toks
+
+def main : IO Unit := protoMain handle
